@@ -65,11 +65,11 @@ func catchPickIndex(m *catchment.CoreModel, i int) {
 }
 
 type catchInst struct {
-	m    *catchment.CoreModel
-	path string
-	prm  parameters.Map
-	pus  planningunit.Ids
-	nact int
+	m       *catchment.CoreModel
+	path    string
+	prm     parameters.Map
+	pus     planningunit.Ids
+	nact    int
 	offGrid int
 }
 
@@ -173,7 +173,9 @@ func (c *catchInst) export(name string) J {
 	}
 	acts := make([]J, 0)
 	for _, a := range c.m.ManagementActions() {
-		keys := a.(interface{ ModelVariableKeys() []action.ModelVariableName }).ModelVariableKeys()
+		keys := a.(interface {
+			ModelVariableKeys() []action.ModelVariableName
+		}).ModelVariableKeys()
 		ks := make([]string, len(keys))
 		for i, k := range keys {
 			ks[i] = string(k)
